@@ -218,6 +218,10 @@ func (c *Connect) unpackPayload(bufr *bytes.Buffer) error {
 		if err != nil {
 			return err
 		}
+		// the will topic is a topic name: not empty, no wildcard characters
+		if !ValidTopicName(true, c.WillTopic) {
+			return codes.ErrMalformed
+		}
 		c.WillMsg, err = readUTF8String(false, bufr)
 		if err != nil {
 			return err
